@@ -353,6 +353,9 @@ func (c *C12) AfterBegin(w *World, b *BeginCtx) {
 	if expiredN >= 2 {
 		w.Probe("expired_ge2_in_block")
 	}
+	if expiredN >= 32 {
+		w.Probe("expired_ge32_in_block")
+	}
 	// R3: each removed order's quantity went from escrow back to tradable
 	for _, pb := range b.Pre.Balances {
 		k := balKey{AddrStr(pb.Address), pb.BatchKey}
